@@ -20,6 +20,7 @@ static int type_classid(ak::Type* t) {
 AKB_EXPORT void akp_type_free(void* h) { delete reinterpret_cast<ak::TypePtr*>(h); }
 AKB_EXPORT int akp_type_classid(void* h) { return type_classid(TYPE(h).get()); }
 AKB_EXPORT void* akp_type_share(void* h) { return new ak::TypePtr(TYPE(h)); }
+AKB_EXPORT void* akp_type_raw(void* h) { return (void*)TYPE(h).get(); }
 AKB_EXPORT void* akp_type_shallow_copy(void* h) { AKP_TRY return share_type(TYPE(h)->shallow_copy()); AKP_CATCH(nullptr) }
 
 AKB_EXPORT void* akp_arraytype_new(TYPE_PARAMS, void* type, int64_t length) {
